@@ -50,7 +50,7 @@ def observe(spec):
     except BaseException as e:
         return dict(status='ok', task=t, nf=pg.show(t), deps=['<dependency search raised %s>' % type(e).__name__], key=t.cache_key,
                     pyeq_collapse=False)
-    shows = [pg.show(d) for d in inst]
+    shows = [pg.strip_marks(pg.show(d)) for d in inst]
     # Python's == is coarser than typed equality (1 == True == 1.0): then the OrderedSet merges what the model keeps apart
     pyeq_collapse = len({s for s in shows}) != len(deps)
     return dict(status='ok', task=t, nf=pg.show(t), deps=[pg.show(d) for d in deps], key=t.cache_key,
@@ -85,9 +85,10 @@ def compare(spec, real, m):
         return [f"accept/reject: real {real['status']} model {m['status']}"]
     if real['status'] != 'ok':
         return out
-    if real['nf'] != m['nf']:
+    # (the model is given scalar-subclass instances as their base scalar and str-subclass keys as plain strs: pg.words)
+    if pg.strip_marks(real['nf']) != m['nf']:
         out.append('normal form differs')
-    if not real['pyeq_collapse'] and real['deps'] != m['deps']:
+    if not real['pyeq_collapse'] and [pg.strip_marks(d) for d in real['deps']] != m['deps']:
         out.append('direct dependencies differ')
     if real['key'] != model_key(spec, m):
         out.append(f"cache_key {real['key']} != model {model_key(spec, m)}")
@@ -217,16 +218,29 @@ def set_at(spec, path, new):
     return spec
 
 
-def respell(spec, rnd):
-    """the same parameters with lists/tuples and dicts/frozendicts respelled at random"""
+def respell(spec, rnd, subs=False):
+    """the same parameters with lists/tuples and dicts/frozendicts respelled at random; `subs`: also every instance of a
+    scalar subclass replaced by the plain value it is == to, and every str-subclass dict key by the plain str it is == to
+    (equal parameters for Python: same ==, same hash)"""
     t = spec[0]
     if t in ('list', 'tuple'):
-        return [rnd.choice(['list', 'tuple']), [respell(s, rnd) for s in spec[1]]]
+        return [rnd.choice(['list', 'tuple']), [respell(s, rnd, subs) for s in spec[1]]]
     if t in ('dict', 'fdict'):
-        return [rnd.choice(['dict', 'fdict']), [[k, respell(s, rnd)] for k, s in spec[1]]]
+        return [rnd.choice(['dict', 'fdict']), [[pg.plain_key(k) if subs else k, respell(s, rnd, subs)] for k, s in spec[1]]]
     if t == 'task':
-        return ['task', spec[1], spec[2], [[f, respell(s, rnd)] for f, s in spec[3]]]
+        return ['task', spec[1], spec[2], [[f, respell(s, rnd, subs)] for f, s in spec[3]]]
+    if t == 'sub' and subs:
+        return spec[2]
     return spec
+
+
+def has_subs(spec):
+    """does the constructor call hold a scalar-subclass instance or a str-subclass dict key?"""
+    if spec[0] == 'sub':
+        return True
+    if spec[0] in ('dict', 'fdict') and any(k[0] in ('ks', 'ke') for k, _ in spec[1]):
+        return True
+    return any(has_subs(c) for c in pg.children(spec))
 
 
 def mutate(spec, rnd):
@@ -259,6 +273,13 @@ def mutate(spec, rnd):
         elif t == 'none':
             new = rnd.choice([['str', 'None'], ['str', 'null'], ['bool', False], ['int', 0], ['tuple', []]])
             kind = 'scalar'
+        elif t == 'sub':
+            # an instance of a scalar subclass -> another value of the same subclass, or a plain scalar of another type
+            inner = mutate(node[2], rnd)
+            if inner is None:
+                continue
+            new = rnd.choice([['sub', node[1], inner[1]] if inner[1][0] == node[2][0] else inner[1], inner[1]])
+            kind = 'subclass-scalar'
         elif t == 'enum' and tuple(node[1:]) in pg.MIXIN_VALUE and rnd.random() < 0.7:
             # mixin enum member -> its bare value, or the same-valued member of another mixin enum
             bare = pg.MIXIN_VALUE[tuple(node[1:])]
@@ -278,15 +299,15 @@ def mutate(spec, rnd):
             if node[1] and rnd.random() < 0.5:
                 items = copy.deepcopy(node[1])
                 i = rnd.randrange(len(items))
-                k = items[i][0][1] + '_'
-                if any(kk[1] == k for kk, _ in items):
+                k = pg.key_str(items[i][0]) + '_'
+                if any(pg.key_str(kk) == k for kk, _ in items):
                     continue
                 items[i][0] = ['k', k]
                 new = [t, items]
             elif len(node[1]) >= 2 and rnd.random() < 0.5:
                 new = [t, node[1][1:] + node[1][:1]]   # same items, other order: a different value for labtech's key
             else:
-                new = [t, node[1] + [[['k', 'zz_extra'], ['none']]]] if all(k[1] != 'zz_extra' for k, _ in node[1]) else None
+                new = [t, node[1] + [[['k', 'zz_extra'], ['none']]]] if all(pg.key_str(k) != 'zz_extra' for k, _ in node[1]) else None
                 if new is None:
                     continue
             kind = 'dict'
@@ -438,15 +459,38 @@ def only_allowed_types(v):
     """no list / dict / anything unsupported at any depth of a real normalised value"""
     from enum import Enum
     from labtech.types import is_task
-    if v is None or type(v) in (bool, int, float, str) or isinstance(v, Enum):
+    # (instances of subclasses of the scalar types are supported values: immutable_param_value tests isinstance)
+    if v is None or isinstance(v, (bool, int, float, str)) or isinstance(v, Enum):
         return True
     if type(v) is tuple:
         return all(only_allowed_types(i) for i in v)
     if type(v) is frozendict:
-        return all(type(k) is str and only_allowed_types(i) for k, i in v.items())
+        return all(isinstance(k, str) and only_allowed_types(i) for k, i in v.items())
     if is_task(v):
         return all(only_allowed_types(getattr(v, f.name)) for f in fields(v))
     return False
+
+
+def usable_protos(spec, protos):
+    """pickle protocols 0-2 write a class reference as ASCII text: CPython itself refuses to pickle an instance of a class
+    whose name has a non-ASCII letter (ptasks.Étude) with them - a fact about pickle, not about labtech's __getstate__ /
+    __setstate__.  Such trees are pickled with protocols >= 3 only."""
+    def ascii_names(sp):
+        if sp[0] == 'task' and not (sp[1] + sp[2]).isascii():
+            return False
+        return all(ascii_names(c) for c in pg.children(sp))
+    return list(protos) if ascii_names(spec) else [p for p in protos if p >= 3]
+
+
+def maybe_eq(a, b):
+    """a == b between two DIFFERENT generated tasks, for the harness's own bookkeeping (which tasks can share a run_tasks
+    call); True when the comparison raises.  numpy scalars compare element-wise with tuples (numpy.float64(1.0) == (1.0, 2.0)
+    is an array, whose truth value raises ValueError inside the dataclass ==; == (1.0,) is a truthy array): numpy's
+    semantics, not labtech's, so such pairs are just kept apart."""
+    try:
+        return bool(a == b)
+    except Exception:
+        return True
 
 
 def nontrivial(spec):
